@@ -1,6 +1,449 @@
+//! Operand-level generated code:
+//!  * binary/autogen_decode_operand.rs : typed decoder requests
+//!  * binary/autogen_parse_operand.rs  : parse_operand arms + *_arguments tables
+//!  * binary/assemble.rs               : `impl Assemble for dr::Operand` arms
+//!  * dr/autogen_operand.rs            : Operand variants (+ reflection, see reflect_operand)
+use crate::common::*;
 use crate::Ctx;
 use serde_json::{json, Value};
 
-pub fn extract(_cx: &mut Ctx) -> Value {
-    json!({})
+fn strip_trailing_commas(s: &str) -> String {
+    s.replace(", ) ", ") ").replace(", ] ", "] ")
+}
+
+fn impl_fns<'a>(file: &'a syn::File, ty: &str) -> Vec<&'a syn::ImplItemFn> {
+    let mut v = vec![];
+    for item in &file.items {
+        if let syn::Item::Impl(imp) = item {
+            let t = tokens_string(&imp.self_ty);
+            if imp.trait_.is_none() && t.trim().starts_with(ty) {
+                for it in &imp.items {
+                    if let syn::ImplItem::Fn(f) = it {
+                        v.push(f);
+                    }
+                }
+            }
+        }
+    }
+    v
+}
+
+// ---------------------------------------------------------------- decode
+fn decode_methods(cx: &mut Ctx) -> Value {
+    const FILE: &str = "rspirv/binary/autogen_decode_operand.rs";
+    let file = match cx.parse(FILE) {
+        Some(f) => f,
+        None => return Value::Null,
+    };
+    let mut out = vec![];
+    for f in impl_fns(&file, "Decoder") {
+        let name = f.sig.ident.to_string();
+        let ret = match &f.sig.output {
+            syn::ReturnType::Type(_, t) => tokens_string(t),
+            _ => String::new(),
+        };
+        // Result < spirv :: T >
+        let ty = ret
+            .trim()
+            .strip_prefix("Result < spirv :: ")
+            .and_then(|r| r.strip_suffix(" >"))
+            .map(|s| s.to_string());
+        let ty = match ty {
+            Some(t) => t,
+            None => {
+                cx.fail(format!("{}: fn {} return type `{}`", FILE, name, ret));
+                continue;
+            }
+        };
+        let body = strip_trailing_commas(&tokens_string(&f.block));
+        let mut found = None;
+        for conv in ["from_bits", "from_u32"] {
+            let want = format!(
+                "{{ if let Ok ( word ) = self . word ( ) {{ spirv :: {ty} :: {conv} ( word ) . ok_or ( Error :: {ty}Unknown ( self . offset - WORD_NUM_BYTES , word ) ) }} else {{ Err ( Error :: StreamExpected ( self . offset ) ) }} }} ",
+                ty = ty,
+                conv = conv
+            );
+            if body == want {
+                found = Some(conv);
+            }
+        }
+        match found {
+            Some(conv) => out.push(json!({"name": name, "type": ty, "conv": conv, "err": format!("{}Unknown", ty)})),
+            None => cx.fail(format!("{}: fn {} body does not match the decode template", FILE, name)),
+        }
+    }
+    Value::Array(out)
+}
+
+// ---------------------------------------------------------------- parse
+/// `dr::Operand::V(self.decoder.m()?)` -> (V, m)
+fn operand_ctor(e: &syn::Expr) -> Option<(String, String)> {
+    if let syn::Expr::Call(c) = e {
+        let p = expr_path(&c.func)?;
+        if p.len() < 2 || p[p.len() - 2] != "Operand" || c.args.len() != 1 {
+            return None;
+        }
+        let variant = last(&p);
+        if let syn::Expr::Try(t) = &c.args[0] {
+            if let syn::Expr::MethodCall(m) = &*t.expr {
+                if m.args.is_empty() && tokens_string(&m.receiver) == "self . decoder " {
+                    return Some((variant, m.method.to_string()));
+                }
+            }
+        }
+    }
+    None
+}
+
+fn vec_macro_elems(e: &syn::Expr) -> Option<Vec<syn::Expr>> {
+    let e = unwrap_block(e);
+    if let syn::Expr::Macro(m) = e {
+        if last(&path_segments(&m.mac.path)) == "vec" {
+            let parser = syn::punctuated::Punctuated::<syn::Expr, syn::Token![,]>::parse_terminated;
+            let p = syn::parse::Parser::parse2(parser, m.mac.tokens.clone()).ok()?;
+            return Some(p.into_iter().collect());
+        }
+    }
+    None
+}
+
+fn unwrap_block(e: &syn::Expr) -> &syn::Expr {
+    if let syn::Expr::Block(b) = e {
+        if b.label.is_none() && b.attrs.is_empty() {
+            if let [syn::Stmt::Expr(inner, None)] = b.block.stmts.as_slice() {
+                return unwrap_block(inner);
+            }
+        }
+    }
+    e
+}
+
+fn operand_vec(e: &syn::Expr) -> Option<Vec<(String, String)>> {
+    let elems = vec_macro_elems(e)?;
+    elems.iter().map(operand_ctor).collect()
+}
+
+fn parse_arms(cx: &mut Ctx, file: &syn::File) -> Value {
+    const FILE: &str = "rspirv/binary/autogen_parse_operand.rs";
+    let fns = impl_fns(file, "Parser");
+    let mut arms_out = vec![];
+    let mut args_out = vec![];
+    for f in fns {
+        let name = f.sig.ident.to_string();
+        if name == "parse_operand" {
+            let sig = tokens_string(&f.sig);
+            if sig != "fn parse_operand ( & mut self , kind : GOpKind ) -> Result < Vec < dr :: Operand > > " {
+                cx.fail(format!("{}: parse_operand signature `{}`", FILE, sig));
+                continue;
+            }
+            let m = match f.block.stmts.as_slice() {
+                [syn::Stmt::Expr(syn::Expr::Call(c), None)]
+                    if expr_path(&c.func) == Some(vec!["Ok".to_string()]) && c.args.len() == 1 =>
+                {
+                    match &c.args[0] {
+                        syn::Expr::Match(m) if expr_path(&m.expr) == Some(vec!["kind".to_string()]) => m,
+                        _ => {
+                            cx.fail(format!("{}: parse_operand body not Ok(match kind)", FILE));
+                            continue;
+                        }
+                    }
+                }
+                _ => {
+                    cx.fail(format!("{}: parse_operand body shape", FILE));
+                    continue;
+                }
+            };
+            for arm in &m.arms {
+                let kind = match pat_path(&arm.pat) {
+                    Some(p) if p.len() == 2 && p[0] == "GOpKind" && arm.guard.is_none() => p[1].clone(),
+                    _ => {
+                        cx.fail(format!("{}: parse_operand arm pattern `{}`", FILE, tokens_string(&arm.pat)));
+                        continue;
+                    }
+                };
+                let body = unwrap_block(&arm.body);
+                if tokens_string(body) == "panic ! ( ) " {
+                    arms_out.push(json!({"kind": kind, "panic": true}));
+                    continue;
+                }
+                if let Some(v) = operand_vec(body) {
+                    arms_out.push(json!({"kind": kind, "ops": v.iter().map(|(a,b)| json!([a,b])).collect::<Vec<_>>()}));
+                    continue;
+                }
+                // parameterised: { let val = self.decoder.m()?; let mut ops = vec![dr::Operand::V(val)]; ops.append(&mut self.parse_X_arguments(val)?); ops }
+                let txt = strip_trailing_commas(&tokens_string(&arm.body));
+                let mut ok = false;
+                if let syn::Expr::Block(b) = &*arm.body {
+                    if let [syn::Stmt::Local(l1), syn::Stmt::Local(_l2), syn::Stmt::Expr(_e3, Some(_)), syn::Stmt::Expr(_e4, None)] =
+                        b.block.stmts.as_slice()
+                    {
+                        // extract method m from l1
+                        if let Some(init) = &l1.init {
+                            if let syn::Expr::Try(t) = &*init.expr {
+                                if let syn::Expr::MethodCall(mc) = &*t.expr {
+                                    let method = mc.method.to_string();
+                                    // find variant and args fn by template comparison
+                                    for argsfn_candidate in txt.split_whitespace() {
+                                        if argsfn_candidate.starts_with("parse_") && argsfn_candidate.ends_with("_arguments") {
+                                            let want = format!(
+                                                "{{ let val = self . decoder . {m} ( ) ? ; let mut ops = vec ! [ dr :: Operand :: {k} ( val ) ] ; ops . append ( & mut self . {a} ( val ) ? ) ; ops }} ",
+                                                m = method, k = kind, a = argsfn_candidate
+                                            );
+                                            if txt == want {
+                                                arms_out.push(json!({"kind": kind, "ops": [[kind, method]], "args_fn": argsfn_candidate}));
+                                                ok = true;
+                                            }
+                                        }
+                                    }
+                                }
+                            }
+                        }
+                    }
+                }
+                if !ok {
+                    cx.fail(format!("{}: parse_operand arm {} not a recognised shape", FILE, kind));
+                }
+            }
+        } else if name.starts_with("parse_") && name.ends_with("_arguments") {
+            // parameter: (name: spirv::T)
+            let (pname, pty) = match f.sig.inputs.iter().nth(1) {
+                Some(syn::FnArg::Typed(t)) => (
+                    tokens_string(&t.pat).trim().to_string(),
+                    tokens_string(&t.ty).trim().to_string(),
+                ),
+                _ => {
+                    cx.fail(format!("{}: {} parameter", FILE, name));
+                    continue;
+                }
+            };
+            let ty = match pty.strip_prefix("spirv :: ") {
+                Some(t) => t.to_string(),
+                None => {
+                    cx.fail(format!("{}: {} parameter type {}", FILE, name, pty));
+                    continue;
+                }
+            };
+            let stmts = &f.block.stmts;
+            let mut rows = vec![];
+            let mut form = "";
+            let mut good = true;
+            if let [syn::Stmt::Expr(syn::Expr::Call(c), None)] = stmts.as_slice() {
+                // Ok(match x { spirv::T::V => vec![..], _ => vec![] })
+                form = "enum";
+                if let (Some(p), Some(syn::Expr::Match(m))) = (expr_path(&c.func), c.args.first()) {
+                    if p != vec!["Ok".to_string()] || expr_path(&m.expr) != Some(vec![pname.clone()]) {
+                        good = false;
+                    }
+                    let n = m.arms.len();
+                    for (k, arm) in m.arms.iter().enumerate() {
+                        if let syn::Pat::Wild(_) = arm.pat {
+                            if k != n - 1 || tokens_string(unwrap_block(&arm.body)) != "vec ! [ ] " {
+                                good = false;
+                            }
+                            continue;
+                        }
+                        let v = match pat_path(&arm.pat) {
+                            Some(p) if p.len() == 3 && p[0] == "spirv" && p[1] == ty && arm.guard.is_none() => p[2].clone(),
+                            _ => {
+                                good = false;
+                                continue;
+                            }
+                        };
+                        match operand_vec(&arm.body) {
+                            Some(ops) => rows.push(json!({"value": v, "ops": ops.iter().map(|(a,b)| json!([a,b])).collect::<Vec<_>>()})),
+                            None => good = false,
+                        }
+                    }
+                } else {
+                    good = false;
+                }
+            } else {
+                // let mut params = vec![]; if x.contains(spirv::T::F) { params.append(&mut vec![..]); } ... Ok(params)
+                form = "mask";
+                let n = stmts.len();
+                for (k, st) in stmts.iter().enumerate() {
+                    if k == 0 {
+                        if tokens_string(st) != "let mut params = vec ! [ ] ; " {
+                            good = false;
+                        }
+                        continue;
+                    }
+                    if k == n - 1 {
+                        if tokens_string(st) != "Ok ( params ) " {
+                            good = false;
+                        }
+                        continue;
+                    }
+                    let mut row_ok = false;
+                    if let syn::Stmt::Expr(syn::Expr::If(i), _) = st {
+                        if i.else_branch.is_none() {
+                            if let syn::Expr::MethodCall(mc) = &*i.cond {
+                                if mc.method == "contains"
+                                    && expr_path(&mc.receiver) == Some(vec![pname.clone()])
+                                    && mc.args.len() == 1
+                                {
+                                    if let Some(fp) = expr_path(&mc.args[0]) {
+                                        if fp.len() == 3 && fp[0] == "spirv" && fp[1] == ty {
+                                            if let [syn::Stmt::Expr(syn::Expr::MethodCall(ap), Some(_))] = i.then_branch.stmts.as_slice() {
+                                                if ap.method == "append" && expr_path(&ap.receiver) == Some(vec!["params".to_string()]) && ap.args.len() == 1 {
+                                                    if let syn::Expr::Reference(r) = &ap.args[0] {
+                                                        if r.mutability.is_some() {
+                                                            if let Some(ops) = operand_vec(&r.expr) {
+                                                                rows.push(json!({"value": fp[2], "ops": ops.iter().map(|(a,b)| json!([a,b])).collect::<Vec<_>>()}));
+                                                                row_ok = true;
+                                                            }
+                                                        }
+                                                    }
+                                                }
+                                            }
+                                        }
+                                    }
+                                }
+                            }
+                        }
+                    }
+                    if !row_ok {
+                        good = false;
+                    }
+                }
+            }
+            if good {
+                args_out.push(json!({"fn": name, "type": ty, "form": form, "rows": rows}));
+            } else {
+                cx.fail(format!("{}: {} is not a recognised arguments table", FILE, name));
+            }
+        } else {
+            cx.fail(format!("{}: unexpected fn {}", FILE, name));
+        }
+    }
+    json!({"arms": arms_out, "args": args_out})
+}
+
+// ---------------------------------------------------------------- assemble arms
+fn assemble_arms(cx: &mut Ctx) -> Value {
+    const FILE: &str = "rspirv/binary/assemble.rs";
+    let file = match cx.parse(FILE) {
+        Some(f) => f,
+        None => return Value::Null,
+    };
+    let mut arms_out = vec![];
+    let mut others = serde_json::Map::new();
+    for item in &file.items {
+        match item {
+            syn::Item::Impl(imp) => {
+                let tr = imp.trait_.as_ref().map(|(_, p, _)| last(&path_segments(p))).unwrap_or_default();
+                let ty = tokens_string(&imp.self_ty).trim().to_string();
+                if tr != "Assemble" {
+                    continue;
+                }
+                for it in &imp.items {
+                    if let syn::ImplItem::Fn(f) = it {
+                        if f.sig.ident != "assemble_into" {
+                            cx.fail(format!("{}: impl Assemble for {} extra fn {}", FILE, ty, f.sig.ident));
+                            continue;
+                        }
+                        if ty == "dr :: Operand" {
+                            let m = match f.block.stmts.as_slice() {
+                                [syn::Stmt::Expr(syn::Expr::Match(m), _)] if tokens_string(&m.expr) == "* self " => m,
+                                _ => {
+                                    cx.fail(format!("{}: Operand::assemble_into is not `match *self`", FILE));
+                                    continue;
+                                }
+                            };
+                            for arm in &m.arms {
+                                let body = strip_trailing_commas(&tokens_string(&arm.body));
+                                let enc = match body.as_str() {
+                                    "result . push ( v . bits ( ) ) " => "bits",
+                                    "result . push ( v as u32 ) " => "as_u32",
+                                    "result . push ( v ) " => "word",
+                                    "result . extend ( [ v as u32 , ( v >> 32 ) as u32 ] ) " => "bit64",
+                                    "assemble_str ( v , result ) " => "string",
+                                    _ => {
+                                        cx.fail(format!("{}: Operand arm body `{}`", FILE, body));
+                                        continue;
+                                    }
+                                };
+                                let mut pats = vec![];
+                                fn collect(p: &syn::Pat, out: &mut Vec<String>) -> bool {
+                                    match p {
+                                        syn::Pat::Or(o) => o.cases.iter().all(|c| collect(c, out)),
+                                        syn::Pat::TupleStruct(ts) => {
+                                            let segs = path_segments(&ts.path);
+                                            if segs.len() == 2 && segs[0] == "Self" && ts.elems.len() == 1 {
+                                                let inner = tokens_string(&ts.elems[0]);
+                                                if inner == "v " || inner == "ref v " {
+                                                    out.push(segs[1].clone());
+                                                    return true;
+                                                }
+                                            }
+                                            false
+                                        }
+                                        _ => false,
+                                    }
+                                }
+                                if arm.guard.is_some() || !collect(&arm.pat, &mut pats) {
+                                    cx.fail(format!("{}: Operand arm pattern `{}`", FILE, tokens_string(&arm.pat)));
+                                    continue;
+                                }
+                                for p in pats {
+                                    arms_out.push(json!([p, enc]));
+                                }
+                            }
+                        } else {
+                            others.insert(format!("assemble_into:{}", ty), json!(tokens_string(&f.block)));
+                        }
+                    }
+                }
+            }
+            syn::Item::Fn(f) => {
+                others.insert(format!("fn:{}", f.sig.ident), json!(tokens_string(&f.block)));
+            }
+            syn::Item::Trait(t) => {
+                others.insert(format!("trait:{}", t.ident), json!(tokens_string(t)));
+            }
+            _ => {}
+        }
+    }
+    json!({"operand_arms": arms_out, "bodies": others})
+}
+
+// ---------------------------------------------------------------- Operand enum
+fn operand_enum(cx: &mut Ctx) -> Value {
+    const FILE: &str = "rspirv/dr/autogen_operand.rs";
+    let file = match cx.parse(FILE) {
+        Some(f) => f,
+        None => return Value::Null,
+    };
+    let mut variants = vec![];
+    for item in &file.items {
+        if let syn::Item::Enum(e) = item {
+            if e.ident == "Operand" {
+                for v in &e.variants {
+                    let ty = match &v.fields {
+                        syn::Fields::Unnamed(u) if u.unnamed.len() == 1 => tokens_string(&u.unnamed[0].ty).trim().to_string(),
+                        _ => {
+                            cx.fail(format!("{}: Operand::{} shape", FILE, v.ident));
+                            continue;
+                        }
+                    };
+                    variants.push(json!([v.ident.to_string(), ty]));
+                }
+            }
+        }
+    }
+    if variants.is_empty() {
+        cx.fail(format!("{}: enum Operand not found", FILE));
+    }
+    Value::Array(variants)
+}
+
+pub fn extract(cx: &mut Ctx) -> Value {
+    let decode = decode_methods(cx);
+    let parse = match cx.parse("rspirv/binary/autogen_parse_operand.rs") {
+        Some(f) => parse_arms(cx, &f),
+        None => Value::Null,
+    };
+    let asm = assemble_arms(cx);
+    let variants = operand_enum(cx);
+    json!({"decode": decode, "parse": parse, "assemble": asm, "variants": variants})
 }
